@@ -518,6 +518,16 @@ func runSrvScenario(sc srvScenario, scn int, res *hx.Result) []srvEvent {
 				res.Add("awaits_timed_out", 1)
 			}
 			r.mu.Unlock()
+		case "must_reply":
+			// K replies must have arrived within 4 s although other handlers are still held: a reply the server owes
+			// (to a flush, to a quick request) may not wait for unrelated handlers to finish
+			r.mu.Lock()
+			okr := r.waitFor(4*time.Second, func() bool { return r.nreply >= st.K })
+			got := r.nreply
+			r.mu.Unlock()
+			if !okr && !faulted {
+				res.Violate(st.Kind, "reply-overdue:"+sc.Name, fmt.Sprintf("%d replies were due (other handlers stay blocked, as handlers may), only %d arrived within 4 s", st.K, got), sc)
+			}
 		case "pause":
 			// let the server settle (e.g. take a completion a released handler offers); K: milliseconds (default 5)
 			ms := st.K
